@@ -1,5 +1,6 @@
 #!/bin/bash
 # usage: tools/mutant.sh <name> <patch.diff | -> <ID> [<ID>...]     (IDs: property ids or "all"); env TIER=quick|thorough
+# Scratch data lives under /tmp/mt (safe to delete; rebuilt on demand).
 # Applies a patch to a scratch copy of /repo (never to /repo itself), builds the harness against the copy
 # (CACHED_SRC) in a separate target dir and runs the listed checks. Prints one line per check.
 name="$1"; patch="$2"; shift 2
